@@ -189,12 +189,14 @@ def h_forms(ctx, form):
     elif form == "fractional-day":
         e = ctx.new(EPOCH, y, m, d + frac)
     elif form == "datetime":
-        # microseconds are whole numbers: restrict the seconds to k/2^0 here and use microsecond = 0
+        # whole seconds plus whole microseconds
         ctx.assume(s == floor_(s))
+        us = ctx.int("us", lo=0, hi=999999)
         dt = ctx.obj("datetime.datetime", year=y, month=m, day=d, hour=h, minute=mi,
-                     second=s if ctx.native else trunc_(s), microsecond=0)
+                     second=s if ctx.native else trunc_(s), microsecond=us)
         ctx.assume(y >= 1)
         e = ctx.new(EPOCH, dt)
+        want = want + (us / 1e6 / 86400.0 if ctx.native else Num.of(us) / 1000000 / 86400)
     elif form == "date":
         dt = ctx.obj("datetime.date", year=y, month=m, day=d)
         ctx.assume(y >= 1)
@@ -325,6 +327,12 @@ def b_float(rng, tier):
             and abs(Epoch([y, m, d, h, mi, s]).jde() - back.jde()) < 1e-9 \
             and abs(Epoch(y, m, d + h / 24.0 + mi / 1440.0 + s / 86400.0).jde() - back.jde()) < 1e-9 \
             and abs(Epoch(e).jde() - e.jde()) < 1e-9
+        if 1 <= y <= 9999:
+            import datetime as _dt
+            us = int((s % 1) * 1e6)
+            dd = _dt.datetime(y, m, d, h, mi, int(s), us)
+            ok = ok and abs(Epoch(dd).jde() - Epoch(y, m, d, h, mi, int(s) + us / 1e6).jde()) < 1e-9 \
+                and abs(Epoch(_dt.date(y, m, d)).jde() - Epoch(y, m, d).jde()) < 1e-9
         x = rng.uniform(-1e6, 1e6) if rng.random() < 0.5 else float(rng.randint(-10 ** 6, 10 ** 6))
         if 0 <= j + x <= 6.4e6 and 0 <= j - x:
             ok = ok and abs(((e + x) - e) - x) < 1e-8 and abs((e - (e - x)) - x) < 1e-8 \
